@@ -1536,7 +1536,7 @@ func (e *CoreExtension) filterFirst(value interface{}, args ...interface{}) (int
 		if len(keys) == 0 {
 			return nil, nil
 		}
-		return rv.MapIndex(keys[0]).Interface(), nil
+		return mapEntry(rv, keys[0]), nil
 	}
 
 	return nil, fmt.Errorf("cannot get first element of %T", value)
@@ -1583,7 +1583,7 @@ func (e *CoreExtension) filterLast(value interface{}, args ...interface{}) (inte
 		if len(keys) == 0 {
 			return nil, nil
 		}
-		return rv.MapIndex(keys[len(keys)-1]).Interface(), nil
+		return mapEntry(rv, keys[len(keys)-1]), nil
 	}
 
 	return nil, fmt.Errorf("cannot get last element of %T", value)
@@ -1744,6 +1744,16 @@ func sortedMapKeys(rv reflect.Value) []reflect.Value {
 	return keys
 }
 
+// mapEntry returns the value stored under key. A key that is not equal to itself (a NaN) is
+// listed among the keys of a map but found by no lookup: its value reads as nil.
+func mapEntry(rv, key reflect.Value) interface{} {
+	v := rv.MapIndex(key)
+	if !v.IsValid() || !v.CanInterface() {
+		return nil
+	}
+	return v.Interface()
+}
+
 // mapKeyOrder is what map keys are ordered by: their string form, then their type, so that
 // keys of different types that print alike (1 and "1" in a map[interface{}]...) have a
 // fixed order too.
@@ -1836,13 +1846,13 @@ func (e *CoreExtension) filterMerge(value interface{}, args ...interface{}) (int
 			// that comes later in that order wins, whatever Go's map order is)
 			generic := make(map[string]interface{}, rv.Len())
 			for _, key := range sortedMapKeys(rv) {
-				generic[toString(key.Interface())] = rv.MapIndex(key).Interface()
+				generic[toString(key.Interface())] = mapEntry(rv, key)
 			}
 			for _, arg := range args {
 				argRv := reflect.ValueOf(arg)
 				if argRv.Kind() == reflect.Map {
 					for _, key := range sortedMapKeys(argRv) {
-						generic[toString(key.Interface())] = argRv.MapIndex(key).Interface()
+						generic[toString(key.Interface())] = mapEntry(argRv, key)
 					}
 				}
 			}
@@ -2293,7 +2303,7 @@ func (e *CoreExtension) functionMerge(args ...interface{}) (interface{}, error) 
 			baseRv := reflect.ValueOf(base)
 			for _, key := range sortedMapKeys(baseRv) {
 				keyStr := toString(key.Interface())
-				result[keyStr] = baseRv.MapIndex(key).Interface()
+				result[keyStr] = mapEntry(baseRv, key)
 			}
 		}
 
@@ -2310,7 +2320,7 @@ func (e *CoreExtension) functionMerge(args ...interface{}) (interface{}, error) 
 				if argRv.Kind() == reflect.Map {
 					for _, key := range sortedMapKeys(argRv) {
 						keyStr := toString(key.Interface())
-						result[keyStr] = argRv.MapIndex(key).Interface()
+						result[keyStr] = mapEntry(argRv, key)
 					}
 				}
 			}
